@@ -326,6 +326,10 @@ int main(void)
 			CHECK(cc.ixa == 0 && cc.ixb == 0 && cc.ixc == 5 && cc.iomode == BR_IO_INOUT, "input side ready for a record header");
 			CHECK(cc.oxa == cc.oxc && cc.oxc == 5 && cc.oxa < cc.oxb && cc.oxb <= cc.obuf_len && cc.oxb - cc.oxa <= cc.max_frag_len, "output side ready, room within obuf and max_frag_len");
 			CHECK(cc.max_frag_len >= 512 && cc.max_frag_len <= 16384 && cc.obuf_len >= cc.max_frag_len + 85 && cc.ibuf_len >= cc.max_frag_len + 325, "max_frag_len fits both buffers with the documented overheads");
+			CHECK(cc.ibuf_len <= blen && cc.obuf_len <= blen && (!bidi || (cc.ibuf + cc.ibuf_len <= cc.obuf && cc.obuf + cc.obuf_len <= big + blen)), "input and output parts lie inside the caller's buffer and do not overlap");
+#ifdef BASE_BIDI
+			if (bidi) { WITNESS_POINT("base: accepted bidi"); }
+#endif
 			WITNESS_POINT("base: accepted");
 		}
 		return 0;
